@@ -2,6 +2,7 @@ SPECIFICATION Spec
 CONSTANTS
   CountGt = TRUE
   MaxLen = 4
+  CheckAll = FALSE
   MaxDepth = 2
 INVARIANT DocumentedDesugaringAgrees
 POSTCONDITION Post
